@@ -19,6 +19,9 @@ What is proved (every theorem is about the model, which reproduces the engine's 
 * `C04_quiesce_fuel`: the fuel of the quiescence model is never exhausted.
 * `C04_stop_bound`, `C04_stop_worker`, `C04_stop_iterate`: once the flag is visible to the polls, every node/worker run
   ends at or before the next multiple of 10000 of the worker's node counter; the interrupted iteration is the last.
+  Since the repair of F11 (the flag is also read at the top of every iteration but the first) the rest of the Stop
+  contract — the loop ends at the next iteration boundary, a total node bound, the unbounded loop needs only finitely
+  many iterations — is in `Wee/Props/C04Stop.lean`.
 * `C04_terminal_root`: a mated/stalemated root ends normally, reports no move, returns a re-usable artifact.
 * `C04_no_panic`: no panic for any legal root, any depth, worker count, cancellation instant, re-used memory included,
   under the hypothesis `PrioritizedOK` (a fact about the incoming memory; true of a fresh one: `C04_no_panic_fresh`
@@ -28,10 +31,12 @@ What is proved (every theorem is about the model, which reproduces the engine's 
 `receiver_dropped`: in the model the sink is the returned `events` list; the Rust closure ignores the send result
 (`_ = sink.send(event)`), so nothing in the search depends on the receiver — there is nothing to state.
 
-NOT provable (and false of the code): a bound on the *total* number of nodes after `Stop`.  The flag is read only when
-a worker's own counter hits a multiple of 10000 and that counter restarts at 0 in every iteration, so an iteration of
-fewer than 10000 nodes never sees the flag and the loop goes on to the next depth (DESIGN §C04, proposal S3).
-`C04_stop_worker` is the per-worker, per-iteration bound that does hold.
+Before the repair of F11 a bound on the *total* number of nodes after `Stop` was false of the code: the flag was read
+only when a worker's own counter hits a multiple of 10000 and that counter restarts at 0 in every iteration, so an
+iteration of fewer than 10000 nodes never saw the flag and the loop went on to the next depth — for ever, without a depth
+limit, on a root whose iterations all stay small (DESIGN §C04, S3; witness `C04Stop.old_loop_never_stops`).  The repaired
+loop reads the flag at every iteration boundary; `C04_stop_worker` is the per-worker, per-iteration bound, the total
+bound is `C04Stop.C04_stop_total_bound`.
 -/
 namespace Wee.SearchCtl
 open Wee Wee.Search
@@ -60,13 +65,16 @@ theorem C04_termination_quiesce (ev : State → Color → Nat → Option Eval) (
   ⟨quiesce.loop.eq_1 .., quiesce.loop.eq_2 ..⟩
 
 /-- **C04_termination (`analyze_iterative`).**  The iteration loop runs at most `limit` iterations and stops at the
-first finished state; with a depth limit the limit is that number, a terminal root has limit 0. -/
+first finished state; with a depth limit the limit is that number, a terminal root has limit 0.  Since the repair of
+F11 every iteration but the first begins with a read of the cancellation flag (`boundaryPoll`), which can end the loop. -/
 theorem C04_termination_iterLoop (ctx : Ctx) (root : State) (rootHash : UInt64) (workersOf : Nat → Nat)
     (n depth : Nat) (st : IterSt) :
     iterLoop ctx root rootHash workersOf 0 depth st = st ∧
     iterLoop ctx root rootHash workersOf (n+1) depth st =
       (if st.finished then st
-       else iterLoop ctx root rootHash workersOf n (depth + 1) (iterStep ctx root rootHash (workersOf depth) depth st)) :=
+       else if (boundaryPoll ctx depth st).finished then boundaryPoll ctx depth st
+       else iterLoop ctx root rootHash workersOf n (depth + 1)
+        (iterStep ctx root rootHash (workersOf depth) depth (boundaryPoll ctx depth st))) :=
   ⟨rfl, rfl⟩
 
 /-! ## the usize subtractions -/
@@ -242,21 +250,28 @@ example : ∃ (ctx : Ctx) (k polls : Nat), ctx.cancelAt = some k ∧ k ≤ polls
 /-- **C04_stop_iterate.**  Once a worker of iteration `depth` is interrupted, (1) the workers after it are not run
 (`runWorkers` returns at once on an interrupted accumulator), (2) the iteration step sets `finished` — node count and
 previous best move untouched, the table keeps the inserts made before the interrupt — and (3) the iteration loop
-returns that state: no further iteration is run, whatever the remaining depth budget. -/
+returns that state: no further iteration is run, whatever the remaining depth budget.
+(Since the repair of F11 the workers of an iteration run on the state `st' = boundaryPoll ctx depth st` left by the
+read of the flag at the top of the loop body — `st` with one more counted poll if `depth > 0` —, which did not end the
+loop: hypothesis `hb`.  The case that it does end the loop is `C04_stop_ends_within_one_iteration` in
+`Wee/Props/C04Stop.lean`.) -/
 theorem C04_stop_iterate (ctx : Ctx) (root : State) (rootHash : UInt64) (workersOf : Nat → Nat) (n depth : Nat)
-    (st : IterSt) (hf : st.finished = false)
-    (hp : (workersOut ctx root (workersOf depth) depth st).panic = Option.none)
-    (hi : (workersOut ctx root (workersOf depth) depth st).interrupted = true) :
-    (∀ l bestMv, runWorkers ctx root depth bestMv l (workersOut ctx root (workersOf depth) depth st) =
-      workersOut ctx root (workersOf depth) depth st) ∧
-    (iterStep ctx root rootHash (workersOf depth) depth st).finished = true ∧
-    (iterStep ctx root rootHash (workersOf depth) depth st).nodes = st.nodes ∧
-    (iterStep ctx root rootHash (workersOf depth) depth st).bestMv = st.bestMv ∧
-    (iterStep ctx root rootHash (workersOf depth) depth st).tt = (workersOut ctx root (workersOf depth) depth st).tt ∧
-    iterLoop ctx root rootHash workersOf (n+1) depth st = iterStep ctx root rootHash (workersOf depth) depth st := by
-  have h := iterStep_interrupted ctx root rootHash (workersOf depth) depth st hp hi
-  refine ⟨fun l bestMv => runWorkers_stopped ctx root depth bestMv l _ (by rw [hi]; rfl), h.1, h.2.2.2.1, h.2.2.2.2,
-    h.2.2.1, iterLoop_interrupted ctx root rootHash workersOf n depth st hf hp hi⟩
+    (st : IterSt) (hf : st.finished = false) (hb : (boundaryPoll ctx depth st).finished = false)
+    (hp : (workersOut ctx root (workersOf depth) depth (boundaryPoll ctx depth st)).panic = Option.none)
+    (hi : (workersOut ctx root (workersOf depth) depth (boundaryPoll ctx depth st)).interrupted = true) :
+    let st' := boundaryPoll ctx depth st
+    (∀ l bestMv, runWorkers ctx root depth bestMv l (workersOut ctx root (workersOf depth) depth st') =
+      workersOut ctx root (workersOf depth) depth st') ∧
+    (iterStep ctx root rootHash (workersOf depth) depth st').finished = true ∧
+    (iterStep ctx root rootHash (workersOf depth) depth st').nodes = st.nodes ∧
+    (iterStep ctx root rootHash (workersOf depth) depth st').bestMv = st.bestMv ∧
+    (iterStep ctx root rootHash (workersOf depth) depth st').tt = (workersOut ctx root (workersOf depth) depth st').tt ∧
+    iterLoop ctx root rootHash workersOf (n+1) depth st = iterStep ctx root rootHash (workersOf depth) depth st' := by
+  intro st'
+  have h := iterStep_interrupted ctx root rootHash (workersOf depth) depth st' hp hi
+  refine ⟨fun l bestMv => runWorkers_stopped ctx root depth bestMv l _ (by rw [hi]; rfl), h.1,
+    by rw [h.2.2.2.1]; exact boundaryPoll_nodes ctx depth st, by rw [h.2.2.2.2]; exact boundaryPoll_bestMv ctx depth st,
+    h.2.2.1, iterLoop_interrupted ctx root rootHash workersOf n depth st hf hb hp hi⟩
 
 /-- the step from a worker's interrupt to the accumulator: the first interrupted worker ends `runWorkers` -/
 theorem C04_stop_workers (ctx : Ctx) (root : State) (depth : Nat) (bestMv : Option Move)
